@@ -137,7 +137,12 @@ def draw_config(rng, family, wmax=16, dmax=8, nodes_max=4, events=(20, 80), **ov
         cfg["max_count"], cfg["num_reserved"] = draw_log_params(rng, family)
     if family == "hh":
         cfg["mkl"] = rng.choice([1, 2, 3, 4, 4, 5, 8, 16, rng.randrange(1, 17)])
-        cfg["phi"] = rng.choice([None, None, 0.5, 0.01, 0.25])
+        w_ = cfg["width"]
+        # explicit thresholds incl. values hugging the default 1/width from both sides (the
+        # docstring recommends phi just above 1/width)
+        cfg["phi"] = rng.choice([None, None, 0.5, 0.01, 0.25, min(0.999, (1.0 / w_) * (1 + 1e-6)) if w_ > 1 else 0.999999,
+                                 (1.0 / w_) * (1 - 1e-7), (1.0 / w_) + 1e-9 if w_ > 1 else 0.9999999,
+                                 min(0.999, (1.0 / w_) * 1.001) if w_ > 1 else 0.5])
         if cfg["phi"] is None and cfg["width"] == 1 and over.get("avoid_phi1"):
             cfg["phi"] = 0.5
     if family == "hll":
